@@ -132,6 +132,99 @@ static void runHandshake(ssl_t *cli, ssl_t *srv, feedResult_t *cr,
     }
 }
 
+
+/* ------------------------------------------------------------------ */
+/* Control cases: honest peers, both ends are the library              */
+
+/* Send `msg` from one established session to the other; 1 if it arrives */
+static int sendAppData(ssl_t *from, ssl_t *to, const char *msg)
+{
+    feedResult_t r;
+
+    memset(&r, 0, sizeof(r));
+    if (matrixSslEncodeToOutdata(from, (unsigned char *) msg,
+            (uint32) strlen(msg)) <= 0)
+    {
+        return 0;
+    }
+    pump(from, to, &r, NULL);
+    return r.appDataRecords == 1 && r.appDataLen == strlen(msg) &&
+           memcmp(r.appData, msg, strlen(msg)) == 0;
+}
+
+static sslKeys_t *controlServerKeys(void)
+{
+    sslKeys_t *k;
+    unsigned char tname[16], tsym[32], tmac[32];
+
+    CHECK(matrixSslNewKeys(&k, NULL) >= 0, "srv keys");
+    CHECK(matrixSslLoadRsaKeysMem(k, RSA2048, RSA2048_SIZE,
+            RSA2048KEY, RSA2048KEY_SIZE, NULL, 0) >= 0, "srv rsa");
+    psGetPrngLocked(tname, 16, NULL);
+    psGetPrngLocked(tsym, 32, NULL);
+    psGetPrngLocked(tmac, 32, NULL);
+    CHECK(matrixSslLoadSessionTicketKeys(k, tname, tsym, 32, tmac, 32) >= 0,
+        "ticket keys");
+    return k;
+}
+
+/* One honest connection. Returns 1 if the handshake completes and data
+   flows both ways; *resumed tells whether the server resumed. */
+static int honestConnection(sslKeys_t *srvKeys, sslKeys_t *cliKeys,
+    sslSessionId_t *sid, int32 versionFlag, const psCipher16_t *suites,
+    uint8_t nSuites, int *resumed)
+{
+    ssl_t *srv, *cli;
+    sslSessOpts_t sopt, copt;
+    feedResult_t cr, sr;
+    int ok;
+
+    memset(&sopt, 0, sizeof(sopt));
+    sopt.versionFlag = versionFlag;
+    memset(&copt, 0, sizeof(copt));
+    copt.versionFlag = versionFlag;
+    copt.ticketResumption = 1;
+    CHECK(matrixSslNewServerSession(&srv, srvKeys, NULL, &sopt) >= 0, "srv");
+    CHECK(matrixSslNewClientSession(&cli, cliKeys, sid, suites, nSuites,
+            strictCertCb, NULL, NULL, NULL, &copt) >= 0, "cli");
+    memset(&cr, 0, sizeof(cr)); memset(&sr, 0, sizeof(sr));
+    runHandshake(cli, srv, &cr, &sr);
+    ok = matrixSslHandshakeIsComplete(cli) && matrixSslHandshakeIsComplete(srv);
+    if (resumed)
+    {
+        *resumed = ok && RESUMED_HANDSHAKE(srv);
+    }
+    ok = ok && sendAppData(cli, srv, "hello from client")
+         && sendAppData(srv, cli, "hello from server");
+    matrixSslDeleteSession(cli);
+    matrixSslDeleteSession(srv);
+    return ok;
+}
+
+/* Full handshake, then a reconnect with the same sslSessionId_t that must be
+   resumed (TLS 1.2: by session ticket, TLS 1.3: by PSK). Exits on failure. */
+static void controlResumption(sslKeys_t *cliKeys, int32 versionFlag,
+    const char *what)
+{
+    sslKeys_t *sk = controlServerKeys();
+    sslSessionId_t *sid;
+    int resumed = 0, ok1, ok2;
+
+    CHECK(matrixSslNewSessionId(&sid, NULL) >= 0, "sid");
+    ok1 = honestConnection(sk, cliKeys, sid, versionFlag, NULL, 0, &resumed);
+    ok2 = ok1 && honestConnection(sk, cliKeys, sid, versionFlag, NULL, 0,
+            &resumed);
+    printf("control: honest %s: full handshake %s, reconnect %s, resumed=%d\n",
+        what, ok1 ? "ok" : "FAILED", ok2 ? "ok" : "FAILED", resumed);
+    if (!ok1 || !ok2 || !resumed)
+    {
+        printf("CONTROL-FAIL: honest %s does not work\n", what);
+        exit(3);
+    }
+    matrixSslDeleteSessionId(sid);
+    matrixSslDeleteKeys(sk);
+}
+
 /* ------------------------------------------------------------------ */
 /* Attacker toolbox: everything below uses public values only          */
 
